@@ -134,3 +134,85 @@ Example C19_nonvacuous :
   (exists sx', runG acts_ok L_ok p_ok sx_ok = Some sx' /\ val sx' (0%nat, [7]) <> val sx_ok (0%nat, [7])).
 Proof. exact nonvacuous. Qed.
 Print Assumptions C19_nonvacuous.
+
+(* ------------------------------------------------------------------------------------------------
+   Deepening (C19/Exact.v): the loop guard made exact. *)
+From PV Require Import C19.Assign C19.Exact.
+
+(* pure Z arithmetic, ALL lo, hi and step <> 0 with a non-empty iteration set (positive or negative
+   step, aligned or not; MOD = Z.rem): `do i = hi - MOD(hi - lo, step), lo, -step` visits exactly the
+   reverse of the original iteration sequence *)
+Theorem C19_reversed_bounds_exact : forall l h t, t <> 0 -> trip_count l h t <> 0%nat ->
+  ivals0 (h - Z.rem (h - l) t) (- t) (trip_count (h - Z.rem (h - l) t) l (- t)) = rev (ivals0 l t (trip_count l h t)).
+Proof. exact reversed_bounds_exact. Qed.
+Print Assumptions C19_reversed_bounds_exact.
+
+(* the exception, exactly: the reversal is right iff the loop is not empty with 0 < |lo-hi| < |step|;
+   in that case the reversed loop runs once, at lo *)
+Theorem C19_reversed_bounds_iff : forall l h t, t <> 0 ->
+  (ivals0 (h - Z.rem (h - l) t) (- t) (trip_count (h - Z.rem (h - l) t) l (- t)) = rev (ivals0 l t (trip_count l h t))
+   <-> ~ bad_empty l h t).
+Proof. exact reversed_bounds_iff. Qed.
+Print Assumptions C19_reversed_bounds_iff.
+
+Theorem C19_reversed_empty_exception : forall l h t, t <> 0 -> bad_empty l h t ->
+  ivals0 l t (trip_count l h t) = [] /\
+  ivals0 (h - Z.rem (h - l) t) (- t) (trip_count (h - Z.rem (h - l) t) l (- t)) = [l].
+Proof. exact reversed_empty_exception. Qed.
+Print Assumptions C19_reversed_empty_exception.
+
+Theorem C19_reversed_bounds_refuted :
+  exists l h t, t <> 0 /\ bad_empty l h t /\
+    ivals0 l t (trip_count l h t) = [] /\
+    ivals0 (h - Z.rem (h - l) t) (- t) (trip_count (h - Z.rem (h - l) t) l (- t)) = [5].
+Proof. exact reversed_bounds_refuted. Qed.
+Print Assumptions C19_reversed_bounds_refuted.
+
+(* the loop guard replaced by the decidable condition "non-empty or unit step" (guardNE) *)
+Theorem C19_loop_adjoint_nonempty_partial : forall fl acts L, NoDup L -> (forall l, In l L -> act acts (fst l) = true) ->
+  forall LV E x lo hi st body q sx sy sx',
+  safe_stmt fl acts LV E (SDo x lo hi st body) = true -> adj_stmt fl acts (SDo x lo hi st body) = Some q ->
+  rel acts LV E sx sy -> run1 (guardA acts L) guardNE (SDo x lo hi st body) sx = Some sx' ->
+  exists sy', run q sy = Some sy' /\ dot L sx' sy = dot L sx sy' /\ rel acts LV E sx sx' /\ rel acts LV E sy sy'.
+Proof. exact loop_adjoint_nonempty. Qed.
+Print Assumptions C19_loop_adjoint_nonempty_partial.
+
+Theorem C19_dot_adjoint_nonempty_partial : forall fl acts L, NoDup L -> (forall l, In l L -> act acts (fst l) = true) ->
+  forall p q sx sy sx',
+  safe fl acts p = true -> adj fl acts p = Some q -> same_passive acts (lvars_l p) sx sy ->
+  runNE acts L p sx = Some sx' ->
+  exists sy', run q sy = Some sy' /\ dot L sx' sy = dot L sx sy' /\
+              same_passive acts (lvars_l p) sx sx' /\ same_passive acts (lvars_l p) sy sy'.
+Proof. exact dot_adjoint_nonempty. Qed.
+Print Assumptions C19_dot_adjoint_nonempty_partial.
+
+(* loops with LITERAL bounds and step: emptiness is decided statically (lit_l), no run-time loop
+   guard is left (gLT is the constant-true guard); only the assignment guards remain *)
+Theorem C19_dot_adjoint_literal_loops : forall fl acts L, NoDup L -> (forall l, In l L -> act acts (fst l) = true) ->
+  forall p q sx sy sx',
+  safe fl acts p = true -> lit_l p = true -> adj fl acts p = Some q -> same_passive acts (lvars_l p) sx sy ->
+  runl (guardA acts L) gLT p sx = Some sx' ->
+  exists sy', run q sy = Some sy' /\ dot L sx' sy = dot L sx sy' /\
+              same_passive acts (lvars_l p) sx sx' /\ same_passive acts (lvars_l p) sy sy'.
+Proof. exact dot_adjoint_literal_loops. Qed.
+Print Assumptions C19_dot_adjoint_literal_loops.
+
+(* non-vacuity: step 3 not aligned; negative step not aligned; a literal-loop program with both *)
+Example C19_exact_step3_unaligned :
+  trip_count 1 8 3 <> 0%nat /\ ivals0 1 3 (trip_count 1 8 3) = [1; 4; 7] /\
+  ivals0 (8 - Z.rem (8 - 1) 3) (- 3) (trip_count (8 - Z.rem (8 - 1) 3) 1 (- 3)) = [7; 4; 1].
+Proof. exact exact_step3_unaligned. Qed.
+Print Assumptions C19_exact_step3_unaligned.
+
+Example C19_exact_negative_step :
+  trip_count 9 2 (-3) <> 0%nat /\ ivals0 9 (-3) (trip_count 9 2 (-3)) = [9; 6; 3] /\
+  ivals0 (2 - Z.rem (2 - 9) (-3)) (- -3) (trip_count (2 - Z.rem (2 - 9) (-3)) 9 (- -3)) = [3; 6; 9].
+Proof. exact exact_negative_step. Qed.
+Print Assumptions C19_exact_negative_step.
+
+Example C19_literal_loops_nonvacuous :
+  safe (mkFlags true true) [0%nat; 1%nat] p_lit = true /\ lit_l p_lit = true /\
+  (exists q, adj (mkFlags true true) [0%nat; 1%nat] p_lit = Some q) /\
+  (exists s', runl (guardA [0%nat; 1%nat] L_lit) gLT p_lit s_lit = Some s' /\ val s' (1%nat, [6]) <> val s_lit (1%nat, [6])).
+Proof. exact literal_loops_nonvacuous. Qed.
+Print Assumptions C19_literal_loops_nonvacuous.
